@@ -769,6 +769,27 @@ def copyRegion (bound next : Nat) (r : V) (changes : List (String × V)) : Excep
       construct c (changes ++ added) next
   | _ => .error .attributeError
 
+/-- attribute assignment `obj.key = v` as the list of heap writes it performs.  Ordinary objects:
+one write.  `RegularPolygonPixelRegion.__setattr__`: `nvertices < 3` raises `ValueError`; after
+storing one of the `_params` (once the region is constructed) `_vertices` is recomputed,
+`vertices` IS that same new object (`self.vertices = self._vertices`), and the derived
+quantities are set again (`_set_derived`). -/
+def setAttrWrites (target : V) (key : String) (v : V) (next : Nat) : Except Exc (List Mut × Nat) :=
+  match target with
+  | .atom _ => .error .attributeError
+  | .node i k fs =>
+    if k = .region "RegularPolygonPixelRegion" then
+      if key = "nvertices" ∧ tooFewVertices [("nvertices", v)] = true then .error .valueError
+      else if (paramsOf "RegularPolygonPixelRegion").contains key ∧ (fs.get? "vertices").isSome then
+        let nv := pixElided next
+        .ok ([⟨i, .set key v⟩, ⟨i, .set "_vertices" nv⟩, ⟨i, .set "vertices" nv⟩,
+              ⟨i, .set "side_length" (.atom .elided)⟩, ⟨i, .set "inradius" (.atom .elided)⟩,
+              ⟨i, .set "perimeter" (.atom .elided)⟩,
+              ⟨i, .set "interior_angle" (qtyElided (next + 3))⟩,
+              ⟨i, .set "exterior_angle" (qtyElided (next + 4))⟩], next + 5)
+      else .ok ([⟨i, .set key v⟩], next)
+    else .ok ([⟨i, .set key v⟩], next)
+
 /-! ### `Regions` -/
 
 /-- CPython `PySlice_AdjustIndices` + the index walk of `list[start:stop:step]`. -/
